@@ -142,7 +142,7 @@ def _create(ctx, vip, rule, epm):
                  '; '.join(notes))
 
 
-def _is_owner_equality(atom, defs):
+def _is_owner_equality(atom, defs, ctx=None, func=None):
     """recorded owner (basename of readlink, possibly via a local) ==
     caller's owner (or its basename)."""
     key = atom.key
@@ -154,7 +154,17 @@ def _is_owner_equality(atom, defs):
 
     def expand(text):
         if text in defs and len(defs[text]) == 1:
-            return N.txt(defs[text][0])
+            text = N.txt(defs[text][0])
+        if ctx is not None and func is not None and text.endswith(')'):
+            # a tiny accessor: read through to what it returns
+            try:
+                call = ast.parse(text, mode='eval').body
+            except SyntaxError:
+                return text
+            if isinstance(call, ast.Call):
+                inner = K.inline_expr_call(ctx.index, func, call)
+                if inner is not None:
+                    return N.txt(inner)
         return text
     exp = [expand(t) for t in terms]
     link = [e for e in exp if 'readlink' in e and 'basename' in e]
@@ -186,7 +196,7 @@ def _release(ctx, vip, rule, epm):
         for node, _call in unlinks:
             def ok_edge(edge):
                 for atom in nz.facts_of_edge(edge):
-                    if _is_owner_equality(atom, defs):
+                    if _is_owner_equality(atom, defs, ctx, func):
                         return True
                     if func.cls is epm and atom.key[0] == 'truth' and \
                             not atom.key[2] and atom.key[1] == 'owner':
